@@ -68,8 +68,8 @@ def reflection(ctx, ev, cname, obj, st, label, payload, own_out):
     dec_bytes = None
     accepted = []
     for t in subterms(mk_app("tuple", [o.value for o in rets])) if rets else []:
-        if is_app(t, ".bytes_to_element") and t.args[1:] == (payload,):
-            accepted = [payload, mk_app(".to_bytes", (t,)), t]
+        if is_app(t, ".bytes_to_element"):     # (what exactly is decoded is C05 D5's obligation)
+            accepted = [payload, mk_app(".to_bytes", (t,)), t] + list(t.args[1:])
     if not rets:
         ctx.ob("S4", inst, False, "no key-returning path to examine")
         return
